@@ -67,7 +67,9 @@ var c06Cfgs = []c06Cfg{
 	{name: "C", dbs: []string{"db_ks", "db_plain"}, phy: map[string]string{"db_ks": "db_ks_phy", "db_plain": "db_plain"}, rules: []c06Rule{
 		{"db_ks", "t_shard", "hash", ""}, {"db_ks", "t_global", "global", ""}}},
 	{name: "D", dbs: []string{"db_ks", "db_plain"}, rules: []c06Rule{
-		{"db_ks", "t$1", "hash", ""}, {"db_ks", "表", "hash", ""}, {"db_ks", "t1", "hash", ""}, {"db_ks", "k", "hash", ""}, {"db_ks", "i", "global", ""}}},
+		{"db_ks", "t$1", "hash", ""}, {"db_ks", "表", "hash", ""}, {"db_ks", "t1", "hash", ""}, {"db_ks", "k", "hash", ""}, {"db_ks", "i", "global", ""},
+		// every digit and both ends of the letter ranges inside a name (identifier-character boundaries)
+		{"db_ks", "t_2020", "hash", ""}, {"db_ks", "az_0189_AZ", "hash", ""}}},
 }
 
 type c06Env struct {
